@@ -290,6 +290,9 @@ def session_unit(kind):
                 ok_bracket = ok_bracket and held is not None
             elif e[0] == "write":
                 ok_bracket = ok_bracket and held == "write"
+            elif e[0] == "close":
+                # closing flushes buffered bytes to the file: it is a file access and must precede the release
+                ok_bracket = ok_bracket and (held == "write" if e[1].fields.get("w_ok") else held is not None)
         V.ensure("post/file-access-only-inside-the-lock-bracket", z3.BoolVal(ok_bracket))
         if body_raises and outcome and outcome[0] == "exit-returned":
             V.ensure("post/body-exception-not-swallowed", z3.BoolVal(outcome[1] is False))
